@@ -434,6 +434,14 @@ Next ==
 
 Spec == Init /\ [][Next]_vars
 
+\* weak fairness of every background job (any parameters) and of the clock
+JobStep == \/ \E j \in PruneJobs, a \in JobAges, k \in JobMaxes : Prune(j, a, k)
+           \/ \E k \in JobMaxes : ExpireSubs(k)
+mvars == <<S, ev, hist>>
+FairJobs == /\ \A j \in PruneJobs : WF_mvars(\E a \in JobAges, k \in JobMaxes : Prune(j, a, k))
+            /\ WF_mvars(\E d \in TickDs : Tick(d))
+FairSpec == Spec /\ FairJobs
+
 ---------------------------------------------------------------------------
 (* Properties checked by TLC on the model.                                 *)
 
@@ -473,6 +481,16 @@ LeaseKept ==
        \A i \in DOMAIN ev'.got : S.del[ev'.got[i].d].at <= S.now]_vars
 
 ---------------------------------------------------------------------------
+
+(* C15, second half (design level): once no live topic, no live subscription *)
+(* and no snapshot is left, fair runs of the jobs - in any order, any batch   *)
+(* size - empty every table; a job that fails on a foreign key (a topic that  *)
+(* still has messages) must not stay stuck.                                   *)
+AllDeleted == /\ \A t \in DOMAIN S.topics : ~S.topics[t].live
+              /\ \A s \in DOMAIN S.subs : ~S.subs[s].live
+              /\ DOMAIN S.snaps = {}
+AllEmpty == DOMAIN S.topics = {} /\ DOMAIN S.subs = {} /\ DOMAIN S.msgs = {} /\ DOMAIN S.del = {}
+Converges == [](AllDeleted => <>AllEmpty)
 
 (* State constraint and VIEW for exhaustive runs.  The view forgets stamps  *)
 (* that cannot influence any later step of the configuration at hand:      *)
